@@ -1,15 +1,15 @@
 #!/bin/bash
 # tools/seed_verify.sh <id> '<ctest regex>' : re-verify a seeded change in its scratch worktree /tmp/seed_<id>:
 #  demo fails with the change, passes without; the named existing tests give the same result with and without.
+#  (no git stash: the stash is shared by all worktrees of a repository)
 id=$1; rx=$2; wt=/tmp/seed_$id; cd $wt || exit 2
-run_demo() { bash -c "$(python3 -c "import json;print(json.load(open('$wt/_seed/meta.json'))['demo_build_and_run'].split('#')[0])")" > $wt/_seed/demo.$1.log 2>&1; echo $?; }
+P=$wt/_seed/patch.diff
+run_demo() { bash -c "$(python3 -c "import json;print(json.load(open('$wt/_seed/meta.json'))['demo_build_and_run'].split('#')[0].replace('; echo exit=\$?',''))")" > $wt/_seed/demo.$1.log 2>&1; echo $?; }
 build() { cmake --build $wt/_build -j6 2>&1 | tail -1; }
 tests() { ctest --test-dir $wt/_build -R "$rx" --timeout 300 2>&1 | grep -E "tests passed|Failed|Passed" | sed 's/ *[0-9.]* sec//' | sort > $wt/_seed/tests.$1.log; }
-git diff --quiet && { echo "no change applied in $wt"; exit 2; }
-git diff -- . ':(exclude)_seed' > _seed/patch.check.diff
+git checkout -q -- . ; git apply $P || { echo "patch does not apply"; exit 2; }
 build; with=$(run_demo with); tests with
-git stash -q; build; without=$(run_demo without); tests without
-git stash pop -q; build
+git apply -R $P; build; without=$(run_demo without); tests without
+git apply $P; build
 echo "demo exit with change: $with (expect !=0); without: $without (expect 0)"
 if diff -q _seed/tests.with.log _seed/tests.without.log >/dev/null; then echo "existing tests: same result with and without"; else echo "existing tests DIFFER"; diff _seed/tests.with.log _seed/tests.without.log; fi
-cat _seed/tests.with.log | tail -5
